@@ -63,6 +63,8 @@ RENDERINGS = (
     ('parenpct-mixed', 'mixed-paren', {}, ('lit:percent', 'paren:percent')),
     # every leaf is a reference followed by a percent sign (cell = 100 * v):
     # % binds tighter than every binary operator, so the leaf stays atomic
+    # a literal may begin or end with its decimal point: .5 and 5.
+    ('dot-lit', 'lit-dot', {}, ('lit:bare-point',)),
     ('min-refpct', 'refpct', {}, ('leaf:ref', 'pct:on-reference')),
     ('full-lit', 'lit', {'full': True}, ('paren:full',)),
     ('leafparen-ref', 'ref', {'leafparens': True}, ('paren:leaf',
@@ -79,6 +81,15 @@ RENDER_FEW = ('min-lit', 'min-ref', 'trailing-lit')
 def leaf_fn(spelling, vec):
     if spelling == 'lit':
         return lambda i: exprs.plain(vec[i])
+    if spelling == 'lit-dot':
+        def dot(i):
+            t = exprs.plain(vec[i])
+            if 'E' in t:
+                return t
+            if '.' not in t:
+                return t + '.'
+            return t[1:] if t.startswith('0.') else t
+        return dot
     if spelling == 'ref':
         return exprs.cellref
     if spelling == 'refpct':
@@ -249,7 +260,8 @@ def run_shard(shard, ctx):
     if shard['n'] >= 3:
         # the percent-sign spellings are a matter of one leaf: small trees
         rnames = [r for r in rnames
-                  if r not in ('blankpct-mixed', 'parenpct-mixed')]
+                  if r not in ('blankpct-mixed', 'parenpct-mixed',
+                               'dot-lit')]
     for s in all_shapes[shard['lo']:shard['hi']]:
         tree, nleaves = exprs.number_leaves(s)
         for vec in vectors_for(shard['n'], nleaves):
@@ -274,7 +286,7 @@ def replay(inputs, ctx):
     fam = {r[0]: r[1] for r in RENDERINGS}
     base = {'lit': 'min-lit', 'ref': 'min-ref', 'mixed': 'min-mixed',
             'refpct': 'min-refpct'}[
-        fam[inputs['rendering']]]
+        fam[inputs['rendering']].split('-')[0]]
     if base not in names:
         names.insert(0, base)
     run_case(tree, vec, names, ctx)
